@@ -32,8 +32,8 @@ ASSUMPTIONS = ["a torn last line is dropped by any JSONL reader and equals the s
                "lists in verdicts are compared as sets where the model documents no order"]
 REQUIRED_PROBES = ["launch_trace", "failing_run_trace", "directory_mode_multi_file", "prefix_without_pipeline_end", "subset_without_pipeline_start"]
 CONFIG = {
-    "quick": {"runs": 500, "budget_s": 150, "timeout_s": 120},
-    "thorough": {"runs": 16000, "budget_s": 1500, "timeout_s": 180},
+    "quick": {"runs": 2000, "budget_s": 240, "timeout_s": 120},
+    "thorough": {"runs": 50000, "budget_s": 1500, "timeout_s": 180},
     "shrink_s": 40.0,
 }
 
